@@ -143,3 +143,277 @@ Proof.
       * rewrite Pf; reflexivity. * apply in_or_app; auto. * rewrite Px; reflexivity.
       * exists u, v. split; auto. split; [destruct (P u) | destruct (P v)]; simpl in *; congruence.
 Qed.
+
+Lemma flat_map_single {A B} (f : A -> list B) (g : A -> B) (l : list A) :
+  (forall e, In e l -> f e = [g e]) -> flat_map f l = map g l.
+Proof.
+  induction l as [|a l IH]; simpl; intros H; auto.
+  rewrite (H a) by auto. simpl. rewrite IH; auto.
+Qed.
+
+(* ------------------------------------------------------------------ the model over R *)
+Section ClipR.
+Variables mn h sc : R.
+Notation O := (ROps mn h sc).
+Implicit Types a : R.
+
+Definition side (ge : bool) (a t : R) : Prop := if ge then a <= t else t <= a.
+Definition strictly_out (ge : bool) (a t : R) : Prop := if ge then t < a else a < t.
+
+Lemma inside_true ge a (p : P2) : inside O ge a p = true <-> side ge a (fst p).
+Proof.
+  unfold inside, side; destruct ge; simpl; unfold Rleb;
+    match goal with |- context [Rle_dec ?x ?y] => destruct (Rle_dec x y) end;
+    split; intros H; auto; try discriminate; exfalso; auto.
+Qed.
+Lemma inside_false ge a (p : P2) : inside O ge a p = false <-> strictly_out ge a (fst p).
+Proof.
+  unfold inside, strictly_out; destruct ge; simpl; unfold Rleb;
+    match goal with |- context [Rle_dec ?x ?y] => destruct (Rle_dec x y) end;
+    split; intros H; auto; try discriminate; try lra; exfalso; lra.
+Qed.
+
+Lemma side_mix ge a (p q : P2) s : 0 <= s <= 1 ->
+  side ge a (fst p) -> side ge a (fst q) -> side ge a (fst (mix s p q)).
+Proof. unfold side, mix; destruct ge; simpl; intros; nra. Qed.
+Lemma out_mix ge a (p q : P2) s : 0 <= s <= 1 ->
+  strictly_out ge a (fst p) -> strictly_out ge a (fst q) -> strictly_out ge a (fst (mix s p q)).
+Proof.
+  unfold strictly_out, mix; destruct ge; simpl; intros Hs Hp Hq.
+  - destruct (Rle_dec (fst p) (fst q)).
+    + assert (0 <= (1 - s) * (fst q - fst p)) by (apply Rmult_le_pos; lra). lra.
+    + assert (0 <= s * (fst p - fst q)) by (apply Rmult_le_pos; lra). lra.
+  - destruct (Rle_dec (fst p) (fst q)).
+    + assert (0 <= s * (fst q - fst p)) by (apply Rmult_le_pos; lra). lra.
+    + assert (0 <= (1 - s) * (fst p - fst q)) by (apply Rmult_le_pos; lra). lra.
+Qed.
+Lemma side_not_out ge a t : side ge a t -> strictly_out ge a t -> False.
+Proof. unfold side, strictly_out; destruct ge; lra. Qed.
+Lemma side_or_out ge a t : side ge a t \/ strictly_out ge a t.
+Proof. unfold side, strictly_out; destruct ge; lra. Qed.
+
+Lemma frac01 x y : (0 <= x <= y /\ 0 < y) \/ (y <= x <= 0 /\ y < 0) -> 0 <= x / y <= 1.
+Proof.
+  intros [[H Hy] | [H Hy]].
+  - split. + apply Rmult_le_pos; [lra | left; apply Rinv_0_lt_compat; lra].
+    + apply (Rmult_le_reg_r y); auto. unfold Rdiv. rewrite Rmult_assoc, Rinv_l by lra. lra.
+  - replace (x / y) with ((- x) / (- y)) by (field; lra).
+    split. + apply Rmult_le_pos; [lra | left; apply Rinv_0_lt_compat; lra].
+    + apply (Rmult_le_reg_r (- y)); [lra|]. unfold Rdiv. rewrite Rmult_assoc, Rinv_l by lra. lra.
+Qed.
+
+(* an edge that crosses the line: the emitted vertex is the point of the edge on the line *)
+Lemma crossing_cases ge a (u v : P2) :
+  xorb (inside O ge a u) (inside O ge a v) = true ->
+  (side ge a (fst u) /\ strictly_out ge a (fst v)) \/ (strictly_out ge a (fst u) /\ side ge a (fst v)).
+Proof.
+  destruct (inside O ge a u) eqn:Eu, (inside O ge a v) eqn:Ev; simpl; try discriminate; intros _.
+  - left. split; [apply inside_true | apply inside_false]; auto.
+  - right. split; [apply inside_false | apply inside_true]; auto.
+Qed.
+
+Lemma cut_is_mix ge a (u v : P2) :
+  xorb (inside O ge a u) (inside O ge a v) = true ->
+  fst v - fst u <> 0 /\
+  exists s, 0 <= s <= 1 /\ s = (a - fst u) / (fst v - fst u) /\ cut O a u v = mix s u v.
+Proof.
+  intros X. apply crossing_cases in X.
+  assert (Hne : fst v - fst u <> 0) by (unfold side, strictly_out in X; destruct ge; lra).
+  split; auto. exists ((a - fst u) / (fst v - fst u)). split; [|split; auto].
+  - apply frac01. unfold side, strictly_out in X; destruct ge; lra.
+  - unfold cut, mix; simpl. apply pair_eq; [field; auto | reflexivity].
+Qed.
+
+Lemma cut_fst a (u v : P2) : fst (cut O a u v) = a.
+Proof. reflexivity. Qed.
+
+(* every emitted vertex is a kept vertex or the point of an edge on the line *)
+Lemma clip_vertex ge a (V : list P2) p :
+  In p (clip O ge a V) -> hull V p /\ side ge a (fst p).
+Proof.
+  unfold clip. rewrite in_flat_map. intros ((u, v) & He & Hp).
+  destruct (edges_in _ _ _ He) as [Hu Hv].
+  unfold step in Hp; simpl in Hp. apply in_app_or in Hp. destruct Hp as [Hp | Hp].
+  - destruct (inside O ge a u) eqn:E; [|inversion Hp]. destruct Hp as [<- | []].
+    split; [apply hull_v; auto | apply inside_true; auto].
+  - destruct (xorb _ _) eqn:X; [|inversion Hp]. destruct Hp as [<- | []].
+    destruct (cut_is_mix ge a u v X) as (_ & s & Hs & _ & E). split.
+    + rewrite E. apply hull_mix; auto; apply hull_v; auto.
+    + rewrite cut_fst. unfold side; destruct ge; lra.
+Qed.
+
+(* clip_sound: the clipped polygon lies in the polygon and on the kept side of the line *)
+Theorem clip_sound ge a (V : list P2) p :
+  hull (clip O ge a V) p -> hull V p /\ side ge a (fst p).
+Proof.
+  revert p. apply hull_ind_conv.
+  - apply clip_vertex.
+  - intros p q s [Hp Sp] [Hq Sq] Hs. split; [apply hull_mix; auto | apply side_mix; auto].
+Qed.
+
+Lemma clip_all_inside ge a (V : list P2) :
+  (forall v, In v V -> inside O ge a v = true) -> clip O ge a V = V.
+Proof.
+  intros H. unfold clip. rewrite (flat_map_single _ fst).
+  - apply edges_fst.
+  - intros (u, v) He. destruct (edges_in _ _ _ He) as [Hu Hv].
+    unfold step; simpl. rewrite (H u Hu), (H v Hv). reflexivity.
+Qed.
+
+Lemma clip_in_kept ge a (V : list P2) u : In u V -> inside O ge a u = true -> In u (clip O ge a V).
+Proof.
+  intros Hu Iu. unfold clip. apply in_flat_map.
+  assert (Hf : In u (map fst (edges V))) by (rewrite edges_fst; auto).
+  apply in_map_iff in Hf. destruct Hf as ((u', v) & E & He). simpl in E; subst u'.
+  exists (u, v). split; auto. unfold step; simpl. rewrite Iu. left; reflexivity.
+Qed.
+Lemma clip_in_cut ge a (V : list P2) u v :
+  In (u, v) (edges V) -> xorb (inside O ge a u) (inside O ge a v) = true -> In (cut O a u v) (clip O ge a V).
+Proof.
+  intros He X. unfold clip. apply in_flat_map. exists (u, v). split; auto.
+  unfold step; simpl. rewrite X. apply in_or_app. right. left; reflexivity.
+Qed.
+
+(* ---- convex polygons: counter-clockwise, every vertex on the left of (or on) every edge *)
+Definition convex (V : list P2) : Prop :=
+  forall u v w, In (u, v) (edges V) -> In w V -> 0 <= cross u v w.
+
+Lemma convex_hull V u v w : convex V -> In (u, v) (edges V) -> hull V w -> 0 <= cross u v w.
+Proof.
+  intros C He. revert w. apply hull_ind_conv.
+  - intros w Hw. apply (C u v w); auto.
+  - intros p q s Hp Hq Hs. rewrite cross_mix. nra.
+Qed.
+
+(* on the cut line the crossing point of an edge bounds the polygon *)
+Lemma cut_cross ge a (u v x : P2) :
+  xorb (inside O ge a u) (inside O ge a v) = true -> fst x = a ->
+  (fst v - fst u) * (snd x - snd (cut O a u v)) = cross u v x.
+Proof.
+  intros X Hx. destruct (cut_is_mix ge a u v X) as (Hne & _).
+  unfold cross, cut; simpl. rewrite Hx. field. auto.
+Qed.
+
+Lemma forallb_false_ex {A} (f : A -> bool) l : forallb f l = false -> exists x, In x l /\ f x = false.
+Proof.
+  induction l as [|a l IH]; simpl; [discriminate|].
+  destruct (f a) eqn:E; simpl; intros H.
+  - destruct (IH H) as (x & ? & ?); eauto.
+  - eauto.
+Qed.
+
+Lemma prod_neg (d e : R) : 0 <= d * e -> d < 0 -> e <= 0.
+Proof. intros; nra. Qed.
+Lemma prod_pos (d e : R) : 0 <= d * e -> 0 < d -> 0 <= e.
+Proof. intros; nra. Qed.
+
+Lemma hull_all_out ge a (V : list P2) :
+  (forall v, In v V -> inside O ge a v = false) -> forall y, hull V y -> strictly_out ge a (fst y).
+Proof.
+  intros H. apply hull_ind_conv.
+  - intros v Hv. apply inside_false; auto.
+  - intros; apply out_mix; auto.
+Qed.
+
+Lemma between_on_line (W : list P2) a (p q x : P2) :
+  fst p = a -> fst q = a -> fst x = a -> snd p <= snd x <= snd q ->
+  hull W p -> hull W q -> hull W x.
+Proof.
+  intros Hp Hq Hx Hb Wp Wq.
+  destruct (Req_dec (snd p) (snd q)) as [E | N].
+  - replace x with p; auto. destruct x, p; simpl in *. apply pair_eq; lra.
+  - apply (hull_seg W p q); auto. exists ((snd x - snd p) / (snd q - snd p)). split.
+    + apply frac01. lra.
+    + destruct x as [xt xl]; unfold mix; simpl in *. apply pair_eq.
+      * rewrite Hp, Hq, Hx. ring.
+      * field. lra.
+Qed.
+
+(* points of a convex polygon that lie ON the line are in the clipped polygon *)
+Lemma clip_line ge a (V : list P2) x :
+  convex V -> hull V x -> fst x = a -> hull (clip O ge a V) x.
+Proof.
+  intros C Hx Ha.
+  destruct (forallb (inside O ge a) V) eqn:Fa.
+  { rewrite clip_all_inside; auto. intros v Hv. rewrite forallb_forall in Fa; auto. }
+  destruct (forallb_false_ex (A:=P2) _ _ Fa) as (y & Hy & Iy).
+  destruct (existsb (inside O ge a) V) eqn:Fe.
+  2:{ exfalso. apply (side_not_out ge a (fst x)).
+      - rewrite Ha. unfold side; destruct ge; lra.
+      - apply (hull_all_out ge a V); auto. intros v Hv.
+        destruct (inside O ge a v) eqn:E; auto.
+        assert (existsb (inside O ge a) V = true) by (apply existsb_exists; eauto). congruence. }
+  apply existsb_exists in Fe. destruct Fe as (z & Hz & Iz).
+  destruct (cyclic_transitions (A:=P2) (inside O ge a) V z y Hz Iz Hy Iy)
+    as [(u & v & He & Iu & Iv) (u' & v' & He' & Iu' & Iv')].
+  assert (X1 : xorb (inside O ge a u) (inside O ge a v) = true) by (rewrite Iu, Iv; reflexivity).
+  assert (X2 : xorb (inside O ge a u') (inside O ge a v') = true) by (rewrite Iu', Iv'; reflexivity).
+  pose proof (clip_in_cut ge a V u v He X1) as In1.
+  pose proof (clip_in_cut ge a V u' v' He' X2) as In2.
+  pose proof (cut_cross ge a u v x X1 Ha) as E1.
+  pose proof (cut_cross ge a u' v' x X2 Ha) as E2.
+  pose proof (convex_hull V u v x C He Hx) as G1.
+  pose proof (convex_hull V u' v' x C He' Hx) as G2.
+  apply inside_true in Iu, Iv'. apply inside_false in Iv, Iu'.
+  rewrite <- E1 in G1. rewrite <- E2 in G2.
+  unfold side, strictly_out in *.
+  destruct ge.
+  - apply (between_on_line _ a (cut O a u' v') (cut O a u v) x); auto; try (apply hull_v; auto).
+    apply prod_neg in G1; [|lra]. apply prod_pos in G2; [|lra]. simpl in G1, G2 |- *. split; lra.
+  - apply (between_on_line _ a (cut O a u v) (cut O a u' v') x); auto; try (apply hull_v; auto).
+    apply prod_pos in G1; [|lra]. apply prod_neg in G2; [|lra]. simpl in G1, G2 |- *. split; lra.
+Qed.
+
+Lemma mix_sym s (p q : P2) : mix s p q = mix (1 - s) q p.
+Proof. unfold mix. apply pair_eq; ring. Qed.
+Lemma mix_0 (p q : P2) : mix 0 p q = p.
+Proof. destruct p; unfold mix; simpl. apply pair_eq; ring. Qed.
+
+(* a segment from the kept side to the other side: its kept part ends on the line *)
+Lemma seg_clip ge a (p q : P2) s (W : list P2) :
+  0 <= s <= 1 -> side ge a (fst p) -> strictly_out ge a (fst q) ->
+  side ge a (fst (mix s p q)) -> hull W p ->
+  (forall x, (exists s0, 0 <= s0 <= 1 /\ x = mix s0 p q) -> fst x = a -> hull W x) ->
+  hull W (mix s p q).
+Proof.
+  intros Hs Sp Oq Sr Wp K.
+  destruct (Req_dec s 0) as [-> | Hs0]; [rewrite mix_0; auto|].
+  set (D := fst q - fst p).
+  assert (HD : D <> 0) by (unfold D, side, strictly_out in *; destruct ge; lra).
+  set (s0 := (a - fst p) / D).
+  assert (H01 : 0 <= s0 <= 1).
+  { apply frac01. unfold D, side, strictly_out in *; destruct ge; lra. }
+  assert (Es0 : s0 * D = a - fst p) by (unfold s0; field; auto).
+  assert (Hle : s <= s0).
+  { unfold side, strictly_out, mix in *; simpl in *. fold D in Oq.
+    destruct ge; [assert (D < 0) by (unfold D; lra) | assert (0 < D) by (unfold D; lra)]; unfold D in *; nra. }
+  assert (Hpos : 0 < s0) by lra.
+  assert (Wx : hull W (mix s0 p q)).
+  { apply K; [exists s0; auto|]. unfold mix; simpl. unfold D in Es0. lra. }
+  apply (hull_seg W p (mix s0 p q)); auto.
+  exists (s / s0). split.
+  - apply frac01. lra.
+  - unfold mix; simpl. apply pair_eq; field; lra.
+Qed.
+
+(* clip_complete: for a convex polygon, everything of the polygon on the kept side survives *)
+Theorem clip_complete ge a (V : list P2) p :
+  convex V -> hull V p -> side ge a (fst p) -> hull (clip O ge a V) p.
+Proof.
+  intros C Hp S.
+  cut (hull V p /\ (side ge a (fst p) -> hull (clip O ge a V) p)); [tauto|]. clear S.
+  revert p Hp. apply (hull_ind_conv V (fun p => hull V p /\ (side ge a (fst p) -> hull (clip O ge a V) p))).
+  - intros v Hv. split; [apply hull_v; auto|]. intros S. apply hull_v, clip_in_kept; auto. apply inside_true; auto.
+  - intros p q s [Hp IHp] [Hq IHq] Hs. split; [apply hull_mix; auto|]. intros S.
+    assert (K : forall p' q', hull V p' -> hull V q' ->
+                forall x, (exists s0, 0 <= s0 <= 1 /\ x = mix s0 p' q') -> fst x = a -> hull (clip O ge a V) x).
+    { intros p' q' Hp' Hq' x (s0 & H0 & ->) Hx. apply clip_line; auto. apply hull_mix; auto. }
+    destruct (side_or_out ge a (fst p)) as [Sp | Op], (side_or_out ge a (fst q)) as [Sq | Oq].
+    + apply hull_mix; auto.
+    + apply (seg_clip ge a); auto. apply K; auto.
+    + rewrite mix_sym. apply (seg_clip ge a); auto; try lra.
+      * rewrite <- mix_sym; auto.
+      * apply K; auto.
+    + exfalso. eapply side_not_out; [exact S | apply out_mix; auto].
+Qed.
+End ClipR.
